@@ -16,6 +16,8 @@ open TdModel.C01
 
 inductive Kind where
   | msg | other | qts | qother | chmsg | chother | plain
+  | aff     -- a messages.affected* result for the common pts sequence (non-dispatchable marker)
+  | chaff   -- the same for a channel's pts sequence
   deriving DecidableEq, Repr
 
 /-- One update of the server's log (harness/c02/mgr `Entry`). `pos` is the sequence position
@@ -55,10 +57,25 @@ def callEvs (x : Int) (ids : List Nat) : List SCall → List SEv
   | .setBox :: cs => callEvs x ids cs
   | .cb :: cs => .tooLong :: callEvs x ids cs
 
-/-- The apply callback of a box (`applyPts`, `applyQts`, channel `applyPts`): the box reports a
-batch `us` ending at `ns`; the callback's calls are interpreted. -/
-def applyEvs (applyCalls : List SCall) : Ev → List SEv
-  | .apply ns us _ => callEvs ns (us.map (·.tag)) applyCalls
+/-- How an apply callback (`applyPts`, `applyQts`, channel `applyPts`) treats a batch:
+`calls` = its modelled calls in source order; `breakAtMarker` = the statement that skips an
+`affectedPts` marker in the conversion loop is `break` (true) instead of `continue` (false), both
+regenerated from the Go AST; `mk` = which tags are markers (see `Manager.HandleAffected`). -/
+structure ACfg where
+  calls : List SCall
+  breakAtMarker : Bool
+  isMarker : Nat → Bool
+
+/-- The ids handed to the handler for a batch: the loop `for _, update := range updates` that
+skips markers. -/
+def batchIds (c : ACfg) (us : List Upd) : List Nat :=
+  if c.breakAtMarker then (us.map (·.tag)).takeWhile (fun i => !c.isMarker i)
+  else (us.map (·.tag)).filter (fun i => !c.isMarker i)
+
+/-- The apply callback of a box: the box reports a batch `us` ending at `ns`; the callback's calls
+are interpreted. -/
+def applyEvs (c : ACfg) : Ev → List SEv
+  | .apply ns us _ => callEvs ns (batchIds c us) c.calls
   | .setState _ => []
 
 inductive SOp where
@@ -68,18 +85,18 @@ inductive SOp where
       -- a branch of getDifference: `direct` is dispatched without the box, position `x` is set
   deriving DecidableEq, Repr
 
-def sstep (applyCalls : List SCall) (b : Box) : SOp → Box × List SEv
-  | .push e => let r := handle b e.upd true; (r.1, r.2.flatMap (applyEvs applyCalls))
+def sstep (c : ACfg) (b : Box) : SOp → Box × List SEv
+  | .push e => let r := handle b e.upd true; (r.1, r.2.flatMap (applyEvs c))
   | .clear => ({ b with gaps := [] }, [])
   | .seq calls x direct =>
     ({ b with state := if calls.contains .setBox then x else b.state },
      callEvs x (direct.map (·.id)) calls)
 
-def srun (applyCalls : List SCall) (b : Box) : List SOp → Box × List SEv
+def srun (c : ACfg) (b : Box) : List SOp → Box × List SEv
   | [] => (b, [])
   | op :: ops =>
-    let r := sstep applyCalls b op
-    let r' := srun applyCalls r.1 ops
+    let r := sstep c b op
+    let r' := srun c r.1 ops
     (r'.1, r.2 ++ r'.2)
 
 /-! ### The properties as decidable functions on one sequence's events -/
@@ -94,23 +111,23 @@ def hasTooLong : List SEv → Bool
   | .tooLong :: _ => true
   | _ :: r => hasTooLong r
 
-/-- `covered log lo v D`: every log entry above the initial position `lo` and at or below `v` has
-its id in `D`. -/
-def covered (log : List Entry) (lo v : Int) (D : List Nat) : Bool :=
-  log.all fun e => decide (e.pos ≤ lo) || decide (v < e.pos) || D.contains e.id
+/-- `covered log mk lo v D`: every log entry above the initial position `lo` and at or below `v`
+that is not a marker has its id in `D`. -/
+def covered (log : List Entry) (mk : Nat → Bool) (lo v : Int) (D : List Nat) : Bool :=
+  log.all fun e => decide (e.pos ≤ lo) || decide (v < e.pos) || mk e.id || D.contains e.id
 
 /-- C03, prefix form: at every store the persisted value covers only entries that were already
 dispatched (`D` = ids dispatched so far), unless too-long was reported before (`tl`). -/
-def safe (log : List Entry) (lo : Int) (D : List Nat) (tl : Bool) : List SEv → Bool
+def safe (log : List Entry) (mk : Nat → Bool) (lo : Int) (D : List Nat) (tl : Bool) : List SEv → Bool
   | [] => true
-  | .dispatch ids :: r => safe log lo (ids ++ D) tl r
-  | .tooLong :: r => safe log lo D true r
-  | .store v :: r => (tl || covered log lo v D) && safe log lo D tl r
+  | .dispatch ids :: r => safe log mk lo (ids ++ D) tl r
+  | .tooLong :: r => safe log mk lo D true r
+  | .store v :: r => (tl || covered log mk lo v D) && safe log mk lo D tl r
 
 /-- C02 for one sequence: every entry above `lo` has been dispatched, unless too-long was
 reported. -/
-def complete' (log : List Entry) (lo : Int) (evs : List SEv) : Bool :=
-  hasTooLong evs || log.all fun e => decide (e.pos ≤ lo) || (dispatchedIds evs).contains e.id
+def complete' (log : List Entry) (mk : Nat → Bool) (lo : Int) (evs : List SEv) : Bool :=
+  hasTooLong evs || log.all fun e => decide (e.pos ≤ lo) || mk e.id || (dispatchedIds evs).contains e.id
 
 /-- The entries of one sequence tile the positions above `c`: each starts where the previous
 one ended and covers at least one position. -/
@@ -123,20 +140,22 @@ def diffShape : List SCall := [.dispatch, .store, .setBox]
 def emptyShape : List SCall := [.store, .setBox]
 def tooLongShape : List SCall := [.cb, .store, .setBox]
 
-/-- Well-formedness of an op in box state `b`: pushes are log entries; a difference branch has
-one of the three shapes, and (honest server, complete routing) a difference that sets position
-`x` carries in `direct` every log entry in `(b.state, x]`; an empty one has nothing to carry. -/
-def wfOp (log : List Entry) (b : Box) : SOp → Bool
-  | .push e => decide (e ∈ log)
+/-- Well-formedness of an op in box state `b`: a push is a log entry, or a count-0 marker at a
+positive position (an affected result that covers no position); a difference branch has one of the
+three shapes, and (honest server, complete routing) a difference that sets position `x` carries in
+`direct` every non-marker log entry in `(b.state, x]`; an empty one has nothing to carry. -/
+def wfOp (log : List Entry) (mk : Nat → Bool) (b : Box) : SOp → Bool
+  | .push e => decide (e ∈ log) || (decide (e.count = 0) && decide (0 < e.pos) && mk e.id)
   | .clear => true
   | .seq calls x direct =>
     (decide (calls = diffShape) &&
-        log.all fun e => !(decide (b.state < e.pos) && decide (e.pos ≤ x)) || decide (e ∈ direct))
-    || (decide (calls = emptyShape) && log.all fun e => !(decide (b.state < e.pos) && decide (e.pos ≤ x)))
+        log.all fun e => !(decide (b.state < e.pos) && decide (e.pos ≤ x)) || mk e.id || decide (e ∈ direct))
+    || (decide (calls = emptyShape) &&
+        log.all fun e => !(decide (b.state < e.pos) && decide (e.pos ≤ x)) || mk e.id)
     || decide (calls = tooLongShape)
 
-def wfRun (applyCalls : List SCall) (log : List Entry) (b : Box) : List SOp → Bool
+def wfRun (c : ACfg) (log : List Entry) (b : Box) : List SOp → Bool
   | [] => true
-  | op :: ops => wfOp log b op && wfRun applyCalls log (sstep applyCalls b op).1 ops
+  | op :: ops => wfOp log c.isMarker b op && wfRun c log (sstep c b op).1 ops
 
 end TdModel.C02Core
